@@ -6,3 +6,4 @@ pub mod scan;
 pub mod tsig;
 pub mod wire;
 pub mod zone;
+pub mod zonefile;
